@@ -1,8 +1,82 @@
 (** CmdC15.v — command table of the model runner for property C15
-    (commands 1500 .. 1599 of [run_cmd]; local number = c mod 100). *)
-From JSL Require Import Base.
+    (commands 1500 .. 1599 of [run_cmd]; local number = c mod 100).
+
+    A case is a list of object descriptions; every description is built into
+    a separate value (as the harness builds a separate Python object):
+      [0; machines; duration; job; pos; id; _]   Operation(...) with the three attributes assigned
+      [5; <instance>; j; p]                      instance.jobs[j][p] of a freshly built instance
+      [1; <operation 0|5>; start; machine]       ScheduledOperation(op, start, machine)
+      [2; <instance>; rows; meta]                Schedule(instance, rows, **meta); rows of [j; p; start; machine]
+      [3; jobs; name; meta; set_attrs; _]        JobShopInstance(jobs, name, set_operation_attributes, **meta);
+                                                 jobs of [machines; duration; job; pos; id]
+      [4; t; z]                                  a value that is none of the four classes
+    Trailing [_] fields choose between construction paths that must not matter
+    (int vs one-element list of machines, constructor vs [from_matrices]). *)
+From JSL Require Import Base Equality EqualitySpec.
+
+Definition dec_oper_fields (v : val) : oper :=
+  mkoper (asLof asZ (vnth v 0)) (asZ (vnth v 1)) (asZ (vnth v 2)) (asZ (vnth v 3)) (asZ (vnth v 4)).
+
+Definition dec_inst (v : val) : inst :=
+  build_instance (asLof (asLof dec_oper_fields) (vnth v 1)) (asLof asZ (vnth v 2))
+                 (asZ (vnth v 3)) (asB (vnth v 4)).
+
+Definition dec_opref (v : val) : oper :=
+  if asZ (vnth v 0) =? 5
+  then inst_op (dec_inst (vnth v 1)) (asN (vnth v 2)) (asN (vnth v 3))
+  else mkoper (asLof asZ (vnth v 1)) (asZ (vnth v 2)) (asZ (vnth v 3)) (asZ (vnth v 4)) (asZ (vnth v 5)).
+
+Definition dec_sched (v : val) : schd :=
+  let I := dec_inst (vnth v 1) in
+  mkschd I
+    (asLof (asLof (fun e => mksoper (inst_op I (asN (vnth e 0)) (asN (vnth e 1)))
+                                    (asZ (vnth e 2)) (asZ (vnth e 3)))) (vnth v 2))
+    (asZ (vnth v 3)).
+
+Definition dec_obj (v : val) : pyobj :=
+  let tag := asZ (vnth v 0) in
+  if (tag =? 0) || (tag =? 5) then OOp (dec_opref v)
+  else if tag =? 1 then OSop (mksoper (dec_opref (vnth v 1)) (asZ (vnth v 2)) (asZ (vnth v 3)))
+  else if tag =? 2 then OSched (dec_sched v)
+  else if tag =? 3 then OInst (dec_inst v)
+  else OForeign (asZ (vnth v 1)) (asZ (vnth v 2)).
+
+Definition table {A : Type} (f : A -> A -> val) (xs : list A) : val :=
+  VL (map (fun a => VL (map (fun b => f a b) xs)) xs).
+
+(** hash(a) == hash(b) is forced when the hashed keys agree; [-1]: not two operations. *)
+Definition hash_key_agree (a b : pyobj) : val :=
+  match a, b with
+  | OOp x, OOp y => vbool (hash_key x =? hash_key y)
+  | _, _ => VI (-1)
+  end.
+
+(** 1: the model's answers on a case: [==] table, [!=] table, hash-key table,
+    contents of the built objects. *)
+Definition cmd_case (v : val) : val :=
+  let xs := map dec_obj (asL v) in
+  VL [table (fun a b => vbool (py_eq a b)) xs;
+      table (fun a b => vbool (py_ne a b)) xs;
+      table hash_key_agree xs;
+      VL (map (fun x => enc_cont (content x)) xs)].
+
+(** 2: the oracle on the implementation's output: snapshots of its objects and
+    its own [==] table -> content-equality table, reflexive, symmetric, transitive. *)
+Definition cmd_oracle (v : val) : val :=
+  let xs := map dec_cont (asL (vnth v 0)) in
+  let M := asLof (asLof asB) (vnth v 1) in
+  VL [VL (map (fun r => VL (map vbool r)) (content_table xs));
+      vbool (reflexiveb M); vbool (symmetricb M); vbool (transitiveb M)].
+
+(** 3: the [==] table of the CURRENT (unrepaired) code's model. *)
+Definition cmd_case_unrepaired (v : val) : val :=
+  let xs := map dec_obj (asL v) in
+  table (fun a b => vbool (py_eq_unrepaired a b)) xs.
 
 Definition run_c15 (c : Z) (v : val) : val :=
   match c with
+  | 1 => cmd_case v
+  | 2 => cmd_oracle v
+  | 3 => cmd_case_unrepaired v
   | _ => VL []
   end.
